@@ -64,7 +64,7 @@ def source_incidence_matrix(network: Network, node_mapper: map.NetworkMapper = m
 
 def current_source_vector(network: Network, source_mapper: map.SourceIndexMapper = map.alphabetic_current_source_mapper) -> np.ndarray:
     cs_index = map.filter(source_mapper(network), lambda x: is_current_source(network[x].element))
-    return np.array([network[x].element.I for x in cs_index.keys])
+    return np.array([network[x].element.I for x in sorted(cs_index.keys, key=lambda k: cs_index[k])])
 
 def current_source_incidence_vector(network: Network, node_mapper: map.NetworkMapper = map.default_node_mapper, source_mapper: map.SourceIndexMapper = map.alphabetic_current_source_mapper) -> np.ndarray:
     Q = source_incidence_matrix(network, node_mapper=node_mapper, source_mapper=source_mapper)
@@ -75,7 +75,7 @@ def nodal_analysis_constants_vector(network: Network, node_mapper: map.NetworkMa
     I = current_source_incidence_vector(network, node_mapper, current_source_mapper)
 
     vs_mapping = voltage_source_mapper(network)
-    V = np.array([network[vs].element.V for vs in vs_mapping.keys])
+    V = np.array([network[vs].element.V for vs in sorted(vs_mapping.keys, key=lambda k: vs_mapping[k])])
     return np.hstack((I, V))
 
 def conductively_attached_nodes(network: Network, node: str) -> set[str]:
